@@ -228,6 +228,7 @@ func (m *CPU) Stats() map[string]any {
 }
 
 func (m *CPU) flush(pc int32) {
+	m.ctx.VerifProbe(risc.VerifProbeFlush)
 	m.fetchUnit.flush(pc)
 	m.decodeUnit.flush()
 	m.controlUnit.flush()
